@@ -1,20 +1,35 @@
 package props
 
-import "testing"
+import (
+	"testing"
+
+	"exoverif/sim"
+
+	"github.com/ExocoreNetwork/exocore/utils"
+	"pgregory.net/rapid"
+)
 
 func init() {
 	w := map[string]int{
 		"nextBlock": 30, "depositLST": 6, "delegate": 10, "undelegate": 16, "nativeDelegate": 5, "nativeUndelegate": 6,
-		"optOut": 5, "optIn": 5, "setKey": 7, "slash": 1, "jail": 1, "unjail": 1, "depositNST": 1,
+		"optOut": 5, "optIn": 5, "setKey": 7, "slash": 1, "jail": 1, "unjail": 1, "depositNST": 1, "setUnbonding": 3,
 	}
 	registerWorldProp(&WorldProp{
 		ID: "C16",
 		Rule: "rapid histories of the world machine over many dogfood epochs (minute identifier, block steps from seconds to multi-epoch gaps) weighted to undelegations, opt-outs and key replacements; " +
 			"non-trivial = at least 3 queue entries of at least 2 kinds (hold / opt-out / key pruning), registered in at least 2 different epochs, were released; distinct = hash of the (kind, outcome) sequence",
-		Gen:        GenOpts{Weights: w, HostilePct: 3, ExtremePct: 0, Anchor: true, Tempos: []int{8, 25, 70}, CapBits: 90, ClampBits: 40},
-		MinSteps:   30,
-		MaxSteps:   90,
-		Config:     worldConfig,
+		Gen:      GenOpts{Weights: w, HostilePct: 3, ExtremePct: 0, Anchor: true, Tempos: []int{8, 25, 70}, CapBits: 90, ClampBits: 40},
+		MinSteps: 30,
+		MaxSteps: 90,
+		Config: func(t *rapid.T) sim.Config {
+			cfg := worldConfig(t)
+			if uniform(t, 2, "testnet?") == 0 {
+				// on testnet chain ids anybody may update the dogfood parameters: the unbonding
+				// period changes in the middle of the histories
+				cfg.ChainID = utils.TestnetChainID + "-1"
+			}
+			return cfg
+		},
 		Invariants: func() []Invariant { return []Invariant{&queuesInv{}} },
 		Tail: func(m *Machine) []Action {
 			out := []Action{}
@@ -30,6 +45,7 @@ func init() {
 			}
 			m.Labels["holds-placed"] += q.heldPlaced
 			m.Labels["undelegations-not-held"] += q.notHeld
+			m.Labels["released-after-the-unbonding-period-was-changed"] += q.releasedUnderChangedN
 			return q.NonTrivial()
 		},
 	})
